@@ -73,7 +73,7 @@ import (
 
 // ---------------------------------------------------------------- (i) layout
 
-var layoutLeaves = []string{"i8", "i16", "i32", "i64", "i128", "i256", "bool", "f32", "f64", "str", "&i32", "[]i32"}
+var layoutLeaves = []string{"i8", "i16", "i32", "i64", "i128", "i256", "bool", "f32", "f64", "str", "&i32", "[]i32", "u8", "byte", "u64"}
 
 func semLeaf(n string) types.SemType {
 	switch n {
@@ -97,6 +97,16 @@ func semLeaf(n string) types.SemType {
 		return types.TypeF64
 	case "str":
 		return types.TypeString
+	case "u8":
+		return types.TypeU8
+	case "u16":
+		return types.TypeU16
+	case "u32":
+		return types.TypeU32
+	case "u64":
+		return types.TypeU64
+	case "byte":
+		return types.TypeByte
 	case "&i32":
 		return types.NewReference(types.TypeI32)
 	case "[]i32":
@@ -109,13 +119,13 @@ func semLeaf(n string) types.SemType {
 // arrays are one pointer.
 func leafSize(n string, ps int) int {
 	switch n {
-	case "i8", "bool":
+	case "i8", "bool", "u8", "byte":
 		return 1
-	case "i16":
+	case "i16", "u16":
 		return 2
-	case "i32", "f32":
+	case "i32", "f32", "u32":
 		return 4
-	case "i64", "f64":
+	case "i64", "f64", "u64":
 		return 8
 	case "i128":
 		return 16
@@ -307,6 +317,15 @@ func behaviouralTypes(quick bool) (fine, lean, res []*ty, bound string) {
 		for _, l := range all6 {
 			d1 = append(d1, tOpt(l))
 		}
+		// the unsigned leaves and byte: structs of 1-2 fields, arrays, optionals, and structs
+		// in which a one-byte leaf is followed closely by other fields
+		uns := leavesOf("u8", "byte", "u16", "u32", "u64")
+		d1 = append(d1, structsOver(uns, 2)...)
+		for _, l := range uns {
+			d1 = append(d1, tArr(2, l), tArr(3, l), tOpt(l))
+		}
+		bt, u8t, u16t, u32t, u64t, i64t, bl := tLeaf("byte"), tLeaf("u8"), tLeaf("u16"), tLeaf("u32"), tLeaf("u64"), tLeaf("i64"), tLeaf("bool")
+		d1 = append(d1, tStruct(bt, bt, u8t), tStruct(bt, u8t, i64t), tStruct(bt, u16t, bt), tStruct(u32t, bt, u64t), tStruct(bt, bl, bt), tStruct(u8t, bl, u16t), tStruct(u16t, u8t, u32t))
 		// depth 2: children = structs of 1-2 fields, [2]T and T? over {i8,i64}; constructors
 		// [2]C, C?, {C}, {C,i8}, {i8,C}
 		two := leavesOf("i8", "i64")
@@ -325,7 +344,7 @@ func behaviouralTypes(quick bool) (fine, lean, res []*ty, bound string) {
 			}
 		}
 		d2 = append(d2, oneComposite(ch, leavesOf("i8"), 2)...)
-		fine = []*ty{tStruct(two[0], two[1]), tArr(2, two[0]), tOpt(two[1])}
+		fine = []*ty{tStruct(two[0], two[1]), tArr(2, two[0]), tOpt(two[1]), tStruct(bt, u8t), tArr(3, bt)}
 		lean = append(append(lean, d1...), d2...)
 		res = append(results(nil, all6), results(ch, leavesOf("i64"))...)
 		bound = fmt.Sprintf("behavioural (quick): depth1 = structs of 1-2 fields over {i8,i16,i32,i64,bool,str}, of 3 fields over {i8,i64,str} and the six orders of (i8,i32,i64), [2]T/[3]T/T? over all six: %d types; depth2 = [2]C, C?, {C}, {C,i8}, {i8,C} for C in the structs of 1-2 fields, [2]T, T? over {i8,i64} (%d children): %d types; fine-grained case set on %d depth1 types; results: leaf x leaf over six leaves, and C ! i64, i64 ! C: %d", len(d1), len(ch), len(d2), len(fine), len(res))
@@ -364,7 +383,13 @@ func behaviouralTypes(quick bool) (fine, lean, res []*ty, bound string) {
 			d3 = append(d3, tOpt(c))
 		}
 	}
+	uns := leavesOf("u8", "byte", "u16", "u32", "u64")
+	d1 = append(d1, depth1(uns, 2)...)
+	d1 = append(d1, structsK(leavesOf("byte", "u8", "i64"), 3)...)
+	d1 = append(d1, structsK(leavesOf("byte", "u16", "bool"), 3)...)
+	d2 = append(d2, wrap(depth1(leavesOf("byte", "u32"), 2), leavesOf("byte"), 2)...)
 	fine = depth1(two, 2)
+	fine = append(fine, tStruct(tLeaf("byte"), tLeaf("u8")), tArr(3, tLeaf("byte")), tStruct(tLeaf("byte"), tLeaf("bool"), tLeaf("byte")))
 	fine = append(fine, tStruct(tStruct(two[0], two[1]), two[0]), tArr(2, tStruct(two[0], two[1])), tStruct(tOpt(two[1]), two[0]), tOpt(tStruct(two[0], two[1])))
 	lean = append(append(append(append(lean, d1...), d2...), d2q...), d3...)
 	res = append(results(nil, all7), results(ch, two)...)
